@@ -170,6 +170,20 @@ CHECKS = {
        "type-unforced parts (argument order inside instances, evaluation counts, Compose order, Id/Head/Last projections). Labelled* "
        "families are exercised through gombok output (C07).",
   technique="exhaustive enumeration of family members with position-tagged, distinctly typed arguments, validated by TLC against wiring tables"),
+ "C07": dict(
+  text="Gombok.tla states which API an @fp.Value declaration must get (getter/With per private field, Option setters, builder, "
+       "AsTuple/FromTuple/Unapply/Apply below 22 active fields, AsLabelled with @fp.GenLabelled, AsMap/AsMutable/String always, "
+       "Marshal/UnmarshalJSON with @fp.Json) and an abstract machine of the API whose accessor and round-trip laws TLC checks for "
+       "every shape up to three fields. Seeded scratch packages (boundary shapes 1/21/22/23 fields, generic struct, Option-only, "
+       "func/chan/interface/error fields, underscore/embedded fields; random shapes over every field kind x visibility x tag with "
+       "shadow-prone field names) are run through gombok built from the working tree twice (GOMAXPROCS 1 and 16, outputs must be "
+       "byte-identical), then go vet + go build, then a generic reflection driver inside the generated package that uses the "
+       "private fields as oracle on 25 random values per struct. TLC (TraceGombok) accepts only events with the required API "
+       "present and every law true; a failing package is bisected to the struct that breaks it.",
+  note="Trusted: TLC, go/types + the Go compiler as the judge of 'compiles', the reflection driver (reads fields via unsafe). "
+       "Field names Builder/Mutable/String-colliding with the generated API are outside the grammar; @fp.Getter/@fp.With/@fp.Builder "
+       "partial annotations and user-pre-defined methods are not generated. Struct shapes are sampled (seeded), not enumerated.",
+  technique="TLA+ API/law specification model-checked with TLC; generator run on seeded struct grammars, generated code driven by reflection, events validated by TLC"),
  "C13": dict(
   level="translation_validation",
   text="GenFix.tla states the property as a transition system on the digest tree (a generator pass is a stuttering step, all passes "
